@@ -72,7 +72,7 @@ Section Inv.
       unfold from_type_def_path in Ht. destruct (t_path t) as [|a [|b l]] eqn:Ep; [discriminate| |].
       + destruct (assoc_str (prelude_table (alloc_tokens (s_alloc s))) a) as [toks'|] eqn:Ea; [|discriminate].
         inversion Ht; subst. exfalso. exact (prelude_head _ _ _ _ Hcolon Halloc Ea Hh).
-      + destruct (forallb ident_lexb (a :: b :: l)); [|discriminate]. inversion Ht; subst.
+      + destruct (forallb path_seg_okb (a :: b :: l)); [|discriminate]. inversion Ht; subst.
         exists (a :: b :: l). split; [reflexivity|]. exists id, t.
         split; [exact Hr|]. split; [exact Ep|]. split; [exact Hcv|]. split; [exact Esub|].
         split; [eauto|exact Hlen].
